@@ -17,6 +17,34 @@ UNITS = [
     ('x86_64/des_basic.c', 'docsis_des_dec_basic', [('ptr', 'in', 13, False, False), ('ptr', 'out', 13, False, True), ('val', 13), DES_KS, ('ptr', 'iv', 8, False, False)]),
     ('x86_64/des_basic.c', 'des_cfb_one', [('ptr', 'out', 5, False, True), ('ptr', 'in', 5, False, False), ('ptr', 'iv', 8, False, False), DES_KS, ('val', 5)]),
 ]
+KAS = ('ptr', 'ks', 256, True, False)        # kasumi_key_sched_t: sk16[64] + msk16[64]
+SNW = ('ptr', 'ks', 16, True, False)         # snow3g_key_schedule_t: k[4]
+SNOW_C = ['x86_64/snow3g_tables.c']
+
+
+def buf(n, i=''):
+    return [('ptr', 'in%s' % i, n, False, False), ('ptr', 'out%s' % i, n, False, True)]
+
+
+# (C unit, function, args, extra C units, extra asm units)
+UNITS2 = []
+for arch, d, ua in (('sse', 'sse_t1', 'sse'), ('avx2', 'avx2_t1', 'avx')):
+    ku, su = '%s/kasumi_%s.c' % (d, arch), '%s/snow3g_%s.c' % (d, arch)
+    uia2 = ['%s/snow3g_uia2_by4_%s.asm' % (d, ua)]
+    UNITS2 += [] if arch != 'sse' else [
+        (ku, 'kasumi_init_f8_key_sched_' + arch, [('ptr', 'key', 16, True, False), ('ptr', 'ks', 256, False, True)], [], []),
+        (ku, 'kasumi_init_f9_key_sched_' + arch, [('ptr', 'key', 16, True, False), ('ptr', 'ks', 256, False, True)], [], []),
+        (ku, 'kasumi_f8_1_buffer_' + arch, [KAS, ('sym', 'iv', False)] + buf(16) + [('val', 16)], [], []),
+        (ku, 'kasumi_f9_1_buffer_' + arch, [KAS, ('ptr', 'in', 16, False, False), ('val', 16), ('ptr', 'out', 4, False, True)], [], []),
+    ]
+    UNITS2 += [
+        (su, 'snow3g_init_key_sched_' + arch, [('ptr', 'key', 16, True, False), ('ptr', 'ks', 16, False, True)], SNOW_C, []),
+        (su, 'snow3g_f8_1_buffer_' + arch, [SNW, ('ptr', 'iv', 16, False, False)] + buf(19) + [('val', 19)], SNOW_C, []),
+        (su, 'snow3g_f8_1_buffer_bit_' + arch, [SNW, ('ptr', 'iv', 16, False, False)] + buf(16) + [('val', 75), ('val', 3)], SNOW_C, []),
+        (su, 'snow3g_f8_4_buffer_' + arch, [SNW] + [('ptr', 'iv%d' % i, 16, False, False) for i in range(4)]
+         + sum([buf(16 + 3 * i, i) + [('val', 16 + 3 * i)] for i in range(4)], []), SNOW_C, []),
+        (su, 'snow3g_f9_1_buffer_' + arch, [SNW, ('ptr', 'iv', 16, False, False), ('ptr', 'in', 16, False, False), ('val', 128), ('ptr', 'out', 4, False, True)], SNOW_C, uia2),
+    ]
 ASM_LOOKUPS = [('lookup_8bit_sse', 256), ('lookup_8bit_avx', 256), ('lookup_16bit_sse', 256), ('lookup_16bit_avx', 256), ('lookup_32bit_sse', 64), ('lookup_32bit_avx', 64),
                ('lookup_64bit_sse', 64), ('lookup_64bit_avx', 64)]
 SUPPORT_ASM = ['x86_64/constant_lookup_fns.asm', 'sse_t1/memcpy_sse.asm', 'x86_64/clear_regs_mem_fns.asm', 'x86_64/const.asm']
@@ -24,7 +52,8 @@ SUPPORT_ASM = ['x86_64/constant_lookup_fns.asm', 'sse_t1/memcpy_sse.asm', 'x86_6
 
 def _task(a):
     import traceback
-    kind, unit, sym, args, safe = a
+    kind, unit, sym, args, safe = a[:5]
+    xc, xa = (a[5], a[6]) if len(a) > 5 else ([], [])
     from vlib.core import Ctx
     from vlib.asmx.decode import Obj
     from vlib.asmx import ct
@@ -34,7 +63,9 @@ def _task(a):
         if kind == 'c':
             extra = [] if safe else ['-USAFE_LOOKUP']
             objs.append(cc(c, unit, out=os.path.join(c.scratch, 'u.o'), extra=extra))
-        for s in SUPPORT_ASM:
+            for i, u in enumerate(xc):
+                objs.append(cc(c, u, out=os.path.join(c.scratch, 'x%d.o' % i)))
+        for s in SUPPORT_ASM + list(xa):
             if os.path.exists(os.path.join(LIB, s)):
                 objs.append(nasm(c, s))
         out = os.path.join(c.scratch, 'ct.o')
@@ -54,24 +85,30 @@ def run(ctx):
     tasks = []
     for unit, sym, args in UNITS:
         tasks.append(('c', unit, sym, args, True))
+    for unit, sym, args, xc, xa in UNITS2:
+        tasks.append(('c', unit, sym, args, True, xc, xa))
     for sym, n in ASM_LOOKUPS:
         tasks.append(('asm', 'x86_64/constant_lookup_fns.asm', sym, [('ptr', 'table', 2048, False, False), ('sym', 'idx', True), ('val', n)], True))
     # must-fail twin: the same DES unit compiled WITHOUT SAFE_LOOKUP indexes its S-boxes with key-dependent values
     tasks.append(('c', 'x86_64/des_basic.c', 'des_enc_cbc_basic', UNITS[0][2], False))
-    ctx.bounds.update({'units': 'compiled objects (gcc -O2, repo flags) of des_basic.c, des_key.c linked with constant_lookup_fns.asm; lookup_{8,16,32,64}bit_{sse,avx}',
-                       'message': '2 DES blocks (CBC), 13 bytes (DOCSIS, residue path), 5 bytes (CFB-one): the per-block code is the same', 'loop_bound': 2,
+    for u in UNITS2:
+        if u[1] in ('kasumi_f8_1_buffer_sse', 'snow3g_f8_1_buffer_sse', 'snow3g_f8_4_buffer_sse'):
+            tasks.append(('c', u[0], u[1], u[2], False, u[3], u[4]))
+    tasks.sort(key=lambda t: 0 if 'kasumi_f' in t[2] else 1)     # longest first
+    ctx.bounds.update({'units': 'compiled objects (gcc, repo flags) of des_basic.c, kasumi_sse.c, snow3g_sse.c, snow3g_avx2.c (+ snow3g_tables.c, snow3g_uia2_by4_{sse,avx}.asm) linked with constant_lookup_fns.asm; lookup_{8,16,32,64}bit_{sse,avx}',
+                       'message': '2 DES blocks (CBC), 13 bytes (DOCSIS, residue path), 5 bytes (CFB-one); KASUMI F8/F9 16 bytes; SNOW3G F8 19 bytes, 75 bits at offset 3, 4 buffers of 16..25 bytes, F9 128 bits: the per-block code is the same', 'loop_bound': 2,
                        'secret': 'every byte of the key schedule(s) / the key; the table index of the lookup primitives'})
     ctx.assume('sweep mode with taint inheritance: an instruction without exact semantics havocs its destination, which inherits the secret tag of any source operand; '
                'both directions of every non-constant branch are followed; a leak is a branch condition or an effective address whose term carries the secret tag')
     ctx.assume('message data, IV, lengths and pointers are public (the property is about the key)')
-    ctx.outside.append('KASUMI and SNOW3G C units in this tier (see DESIGN); AVX-512 DES (not in the property); micro-architectural channels')
+    ctx.outside.append('kasumi_f8_1_buffer_bit (its tail switch is a jump table the sweep does not resolve); KASUMI/SNOW3G n-buffer and 8-buffer entry points and the SNOW3G AVX-512 unit; the multi-buffer SNOW3G job managers (asm); AVX-512 DES (not in the property); micro-architectural channels; paths cut at the loop bound')
     t0 = time.time()
     with Pool(min(NCPU, len(tasks))) as pool:
         for r in pool.imap_unordered(_task, tasks):
             ctx.functions.update(r.get('src', {}))
             nm = 'C19 %s (%s)%s: no secret-dependent branch or address on %d explored paths, %d instructions' % (r['name'], r.get('unit'), '' if r.get('safe', True) else ' WITHOUT SAFE_LOOKUP', r.get('paths', 0), r.get('steps', 0))
             if not r.get('safe', True):
-                ctx.add('WITNESS des_enc_cbc_basic compiled without SAFE_LOOKUP has key-dependent table addresses (must be reported)', 'violated' if r['result'] == 'violated' else 'discharged',
+                ctx.add('WITNESS %s compiled without SAFE_LOOKUP has key-dependent table addresses (must be reported)' % r['name'], 'violated' if r['result'] == 'violated' else 'discharged',
                         r.get('secs', 0), 'asmx', str(r.get('leaks'))[:200], expect='violated')
                 continue
             if r['result'] == 'held':
